@@ -16,7 +16,9 @@ RULE = ('stub property package of three user-defined chemicals whose mixture H /
         'by a scripted solver keyed on the phases, so that the phase-flip fallback of the H setter and the convert-to-multi-phase '
         'fallback of mix_from run), sep (separate_out), set (H / h / S / Hnet setters, real and scripted solver, assigning a new value '
         'and the current value), iter (iter_T_at_HP / iter_T_at_SP / xiter_* called directly with affine models and a rational stand-in '
-        'for exp), wrap (Mixture.solve_T_at_HP with scripted flexsolve calls).  Compared: every stream of the store afterwards (class, '
+        'for exp), wrap (the four Mixture.(x)solve_T_at_HP/SP wrappers with scripted flexsolve calls that return or raise; result AND what '
+        'is left in _free_energy_args), hist (histories over a stream and its proxies: reads of H/S/h, T/P/phase/H/h/Hnet assignments, '
+        's.X = s.X, mixes, separations; every returned value, every exception and the final state through every handle).  Compared: every stream of the store afterwards (class, '
         'phases, flows per phase exactly, T to 1e-9, P exactly), H of every stream to 1e-9, exception class.  non-trivial = the '
         'operation changed the store (or returned a value / raised); distinct = distinct case hash')
 ASSUMPTIONS = [
@@ -48,7 +50,8 @@ PHn = {v: k for k, v in PH.items()}
 CN = [64., 32., 128.]            # heat capacities of the condensed phases (l, L, s, S)
 CNG = [32., 16., 64.]            # heat capacities of the gas
 LAT = [8192., 4096., 16384.]     # latent offset of the gas:  H(g, T) = sum n (CNG (T - Tref) + LAT)
-SG = [16., 8., 32.]              # entropy offset of the gas (S is not evaluated by the model; the oracle needs S(l) != S(g))
+S0L = [4., 2., 8.]               # entropy offsets:  S(phase, T) = sum n (Cn(phase) (T - Tref) / 256 + S0(phase))
+SG = [16., 8., 32.]
 HF = [-1024., -512., 256.]
 IDS = ['A_', 'B_', 'C_']
 TREF = F(298.15)
@@ -75,10 +78,9 @@ def env():
         def Cn_model(phase, mol, T, P=None):
             c = CNG if phase == 'g' else CN
             return sum([x * c[i] for i, x in items(mol)])
-        S_pkg = mix._S
         def S_model(phase, mol, T, P):
-            S = S_pkg(phase, mol, T, P)
-            return S + sum([x * SG[i] for i, x in items(mol)]) if phase == 'g' else S
+            c, s0 = (CNG, SG) if phase == 'g' else (CN, S0L)
+            return sum([x * (c[i] * (T - 298.15) / 256. + s0[i]) for i, x in items(mol)])
         mix._H, mix.Cn, mix._S = H_model, Cn_model, S_model
     _env['tmo'].settings.set_thermo(_env['thermo'])
     _env['ids'] = IDS
@@ -245,10 +247,87 @@ def gen_iter(rng):
             'Cn': rng.choice([None, 2., 64., 0., 0.5]), 'ea': float(rng.choice([1, 1, 2, F(1, 2)])), 'eb': float(rng.choice([1, 2, 4]))}
 
 def gen_wrap(rng):
-    return {'kind': 'wrap', 'Tguess': float(rng.choice(TS)), 'H': float(rng.choice([0, 1024, 4096, 20000, -512])),
+    """Mixture.(x)solve_T_at_HP / SP with scripted flexsolve calls, any of which may raise; the work-space left behind is observed"""
+    return {'kind': 'wrap', 'var': rng.choice(['H', 'H', 'xH', 'S', 'xS']),
+            'Tguess': float(rng.choice(TS)), 'H': float(rng.choice([0, 1024, 4096, 20000, -512])),
             'a': float(rng.choice([1, 2, 64, F(1, 2), 128])), 'b': float(rng.choice(DY)),
-            'c': float(rng.choice([0, 1, 2, 64, 128, F(1, 2)])), 'aitken': float(rng.choice(TS)),
-            'exact_guess': rng.random() < 0.3, 'secant': float(rng.choice(TS))}
+            'c': float(rng.choice([0, 0, 1, 2, 64, 128, F(1, 2)])), 'aitken': float(rng.choice(TS)),
+            'exact_guess': rng.random() < 0.3, 'secant': float(rng.choice(TS)),
+            'aitken_raises': rng.random() < 0.15, 'secant_raises': rng.random() < 0.3,
+            'ea': float(rng.choice([1, 1, 2])), 'eb': float(rng.choice([1, 2, 4]))}
+
+HIST_T = [300., 320., 350., 350.5, 400.]
+HIST_P = [101325., 200000., 50000.]
+def gen_hist(rng):
+    """histories over several handles (a stream and its proxies) of 1-3 single-phase streams: reads of H / S / h, assignments
+    of T / P / phase / H / h / Hnet, `s.X = s.X`, mixes and separations.  Half of the cases follow the pattern that makes a
+    shared memo matter: read through one handle, take the stream elsewhere and read through ANOTHER handle, come back to
+    exactly the first state, use the first handle again"""
+    n = rng.randint(1, 3)
+    streams = [gen_stream(rng, empty_p=0.05, multi_p=0., phases='llgg') for _ in range(n)]
+    for d in streams:
+        d['T'] = rng.choice(HIST_T); d['P'] = rng.choice(HIST_P)
+    cells = list(range(n))              # handle -> cell
+    ops = []
+    phase_of = [next(iter(d['rows'])) for d in streams]
+    def proxy(h):
+        ops.append(['proxy', h]); cells.append(cells[h]); return len(cells) - 1
+    def handle_of(c):
+        return rng.choice([h for h, x in enumerate(cells) if x == c])
+    def read(h):
+        ops.append(['read', h, rng.choice(['H', 'H', 'S', 'h'])])
+    def use(h):
+        k = rng.random()
+        c = cells[h]
+        if k < 0.45: read(h)
+        elif k < 0.65: ops.append(['cur', h, rng.choice(['H', 'S', 'h', 'Hnet'])])
+        elif k < 0.85 and n > 1:
+            r = rng.choice([x for x in range(n) if x != c])
+            others = [['s', h]] + [['s', handle_of(x)] for x in range(n) if x not in (c, r) and rng.random() < 0.5]
+            hr = handle_of(r)          # inside one call a cell is always named by ONE handle (`is` distinguishes proxies)
+            if rng.random() < 0.3: others.append(['s', hr])
+            rng.shuffle(others)
+            ops.append(['mix', hr, others, float(rng.choice([0, 0, 512, 1024]))])
+        elif n > 1:
+            r = rng.choice([x for x in range(n) if x != c])
+            ops.append(['sep', handle_of(r), h])
+        else: read(h)
+    def change(h):
+        """an excursion; returns the op that restores the state exactly"""
+        c = cells[h]; d = streams[c]
+        k = rng.random()
+        if k < 0.4:
+            ops.append(['T', h, rng.choice([t for t in HIST_T if t != d['T']])]); return lambda g: ops.append(['T', g, d['T']])
+        if k < 0.6:
+            ops.append(['set', h, 'H', float(rng.choice([4096, 8192, 65536, 20000]))]); return lambda g: ops.append(['T', g, d['T']])
+        if k < 0.8:
+            ops.append(['P', h, rng.choice([p for p in HIST_P if p != d['P']])]); return lambda g: ops.append(['P', g, d['P']])
+        ph = phase_of[c]
+        ops.append(['phase', h, 'g' if ph == 'l' else 'l']); return lambda g: ops.append(['phase', g, ph])
+    if rng.random() < 0.5:
+        c = rng.randrange(n)
+        a = c if rng.random() < 0.5 else None
+        b = proxy(c)
+        if a is None: a = proxy(c)
+        if rng.random() < 0.5: a, b = b, a
+        for _ in range(rng.randint(1, 2)):
+            read(a)
+            back = change(rng.choice([a, b]))
+            if rng.random() < 0.85: read(b)
+            back(rng.choice([a, b]))
+            use(a)
+    else:
+        for _ in range(rng.randint(3, 9)):
+            h = rng.randrange(len(cells))
+            k = rng.random()
+            if k < 0.15: proxy(h)
+            elif k < 0.45: read(h)
+            elif k < 0.7:
+                back = change(h)
+                if rng.random() < 0.4: back(handle_of(cells[h]))
+            elif k < 0.8: ops.append(['set', h, rng.choice(['H', 'h', 'Hnet']), float(rng.choice([4096, 8192, 1024, 20000]))])
+            else: use(h)
+    return {'kind': 'hist', 'streams': streams, 'ops': ops}
 
 def gen_cases(rng, tier):
     n = 1 if tier == 'quick' else 12
@@ -258,7 +337,8 @@ def gen_cases(rng, tier):
     cases += [gen_sep(rng) for _ in range(40 * n)]
     cases += [gen_set(rng) for _ in range(70 * n)]
     cases += [gen_iter(rng) for _ in range(40 * n)]
-    cases += [gen_wrap(rng) for _ in range(15 * n)]
+    cases += [gen_wrap(rng) for _ in range(30 * n)]
+    cases += [gen_hist(rng) for _ in range(80 * n)]
     return cases
 
 # ------------------------------------------------------------------ implementation side
@@ -363,6 +443,127 @@ def true_H(s):
         return float(s.mixture.xH(zip(s.phases, s.imol.data.rows), s.T, s.P))
     return float(s.mixture.H(s.phase, s.mol, s.T, s.P))
 
+def run_wrap(case):
+    """one of the four temperature-solve wrappers of Mixture on a throw-away subclass with affine H / S and constant Cn,
+    flexsolve replaced by scripted calls; returns the result or exception AND what is left in _free_energy_args"""
+    mm = _env['mm']
+    a, b, c = case['a'], case['b'], case['c']
+    var = case.get('var', 'H')
+    class M(mm.Mixture):
+        __slots__ = ('_free_energy_args',)
+        def __init__(self): self._free_energy_args = {}
+        def _load_free_energy_args(self, phase, mol, T, P): self._free_energy_args[phase] = ('eos', mol, T, P)
+        def _load_xfree_energy_args(self, phase_mol, T, P):
+            for phase, mol in phase_mol: self._free_energy_args[phase] = ('eos', mol, T, P)
+        def H(self, phase, mol, T, P): return a * T + b
+        def S(self, phase, mol, T, P): return a * T + b
+        def Cn(self, phase, mol, T, P=None): return c
+    Tg = (case['H'] - b) / a if case['exact_guess'] else case['aitken']
+    calls = []
+    class FakeFlx:
+        @staticmethod
+        def aitken(f, x, xtol, args, maxiter, checkiter=False):
+            calls.append('aitken')
+            if case.get('aitken_raises'): raise RuntimeError('scripted aitken: no convergence')
+            return Tg
+        @staticmethod
+        def aitken_secant(f, x0, x1, xtol, ytol):
+            calls.append('secant')
+            if case.get('secant_raises'): raise RuntimeError('scripted aitken_secant: no convergence')
+            return case['secant']
+    out = {'err': None}
+    m = M()
+    saved, saved_exp = mm.flx, mm.exp
+    mm.flx = FakeFlx
+    mm.exp = lambda y: (case.get('ea', 1.) + y) / case.get('eb', 1.)
+    try:
+        f = getattr(m, ('xsolve_T_at_' if var.startswith('x') else 'solve_T_at_') + var[-1] + 'P')
+        args = ((('l', None), ('g', None)),) if var.startswith('x') else ('l', None)
+        out['T'] = fr_json(frac(f(*args, case['H'], case['Tguess'], 101325.)))
+    except Exception as ex:
+        out['err'] = err_of(ex); out['exc'] = f'{type(ex).__name__}: {ex}'[:120]
+    finally:
+        mm.flx, mm.exp = saved, saved_exp
+    out['Tg'] = Tg
+    out['calls'] = calls
+    out['left'] = len(m._free_energy_args)
+    return out
+
+def true_S(s):
+    return float(s.mixture.S(s.phase, s.mol, s.T, s.P))
+
+def run_hist(case, check):
+    """run a history on the real objects.  check=False: record what each operation returned / raised and the final state;
+    check=True: evaluate the property at every step and return (None, message)"""
+    tmo = _env['tmo']
+    objs = [build_stream(d) for d in case['streams']]
+    cell = list(range(len(objs)))
+    obs = []
+    out = {'err': None, 'init': [snap(x) for x in objs]}
+    def fail(msg): return (None, msg)
+    for n, op in enumerate(case['ops']):
+        k = op[0]; s = objs[op[1]]
+        who = f'op {n} {op} (handle {op[1]} of stream {cell[op[1]]})'
+        if k == 'proxy':
+            objs.append(s.proxy()); cell.append(cell[op[1]]); obs.append(['none'])
+        elif k == 'read':
+            v = getattr(s, op[2])
+            obs.append(['val', None if v is None else fr_json(frac(v))])
+            if check and v is not None:
+                t = true_H(s) if op[2] == 'H' else true_S(s) if op[2] == 'S' else true_H(s) / s.F_mol
+                if not close(v, t, 1e-7):
+                    return fail(f'stale-read: {who}: .{op[2]} returned {v!r} but the mixture model gives {t!r} at T={s.T}, P={s.P}, phase {s.phase!r}')
+        elif k == 'T': s.T = op[2]; obs.append(['none'])
+        elif k == 'P': s.P = op[2]; obs.append(['none'])
+        elif k == 'phase': s.phase = op[2]; obs.append(['none'])
+        elif k in ('set', 'cur'):
+            T0, ph0 = s.T, s.phase
+            try:
+                if k == 'set': setattr(s, op[2], op[3])
+                else:
+                    v = getattr(s, op[2])
+                    setattr(s, op[2], 0. if v is None else v)
+                obs.append(['err', None])
+            except Exception as ex:
+                obs.append(['err', err_of(ex)])
+                if check and s.F_mol > 0: return fail(f'set-{op[2]}: {who} raised {type(ex).__name__}: {str(ex)[:100]}')
+            if check and s.F_mol > 0:
+                if k == 'cur' and (not close(s.T, T0, 1e-7) or s.phase != ph0):
+                    return fail(f'set-{op[2]}: {who}: assigning the current {op[2]} moved the stream from T={T0}, {ph0!r} to T={s.T}, {s.phase!r}')
+                if k == 'set':
+                    back = {'H': true_H(s), 'h': true_H(s) / s.F_mol, 'Hnet': true_H(s) + s.Hf}[op[2]]
+                    if not close(back, op[3], 1e-7): return fail(f'set-{op[2]}: {who}: assigned {op[3]!r}, the stream now has {back!r}')
+        elif k in ('mix', 'sep'):
+            if k == 'mix':
+                others = [objs[o[1]] for o in op[2]]
+                ne = [o for o in others if not o.isempty()]
+                exp = sum(true_H(o) for o in ne) + op[3] if ne else None
+                Pmin = min(o.P for o in ne) if ne else None
+            else:
+                o = objs[op[2]]
+                exp = true_H(s) - true_H(o); Pmin = None
+            try:
+                if k == 'mix': s.mix_from(others, Q=op[3])
+                else: s.separate_out(o)
+                obs.append(['none'])
+            except Exception as ex:
+                obs.append(['stop', err_of(ex)])
+                out['stopped'] = True
+                if check: return fail(f'{k}: {who} raised {type(ex).__name__}: {str(ex)[:100]}') if s.F_mol > 0 and reachable(s, 'H', exp or 0.) else (None, None)
+                break
+            if check and exp is not None and s.F_mol > 0 and all(x >= 0 for x in state(s)[2]):
+                if not close(true_H(s), exp, 1e-7):
+                    return fail(f'{k}: {who}: H of the receiver is {true_H(s)!r}, the inlets (read from the mixture model) give {exp!r}')
+                if Pmin is not None and s.P != Pmin: return fail(f'{k}: {who}: P of the receiver is {s.P!r}, lowest inlet pressure {Pmin!r}')
+    if check: return (None, None)
+    out['obs'] = obs
+    first = [cell.index(c) for c in range(len(case['streams']))]
+    out['final'] = [snap(objs[h]) for h in first]
+    out['cells'] = cell[:len(obs) and len(cell)]
+    # every handle of a cell must show the same state
+    out['handles_agree'] = all(snap(objs[h]) == out['final'][c] for h, c in enumerate(cell)) if not out.get('stopped') else True
+    return (out, None)
+
 def run_impl(case):
     e = env(); mm = e['mm']
     k = case['kind']
@@ -421,32 +622,9 @@ def run_impl(case):
             mm.exp = saved
         return out
     if k == 'wrap':
-        a, b, c = case['a'], case['b'], case['c']
-        class M(mm.Mixture):
-            __slots__ = ('_free_energy_args',)
-            def __init__(self): self._free_energy_args = {}
-            def H(self, phase, mol, T, P): return a * T + b
-            def Cn(self, phase, mol, T, P=None): return c
-        Tg = (case['H'] - b) / a if case['exact_guess'] else case['aitken']
-        calls = []
-        class FakeFlx:
-            @staticmethod
-            def aitken(f, x, xtol, args, maxiter, checkiter=False):
-                calls.append('aitken'); return Tg
-            @staticmethod
-            def aitken_secant(f, x0, x1, xtol, ytol):
-                calls.append('secant'); return case['secant']
-        saved = mm.flx
-        mm.flx = FakeFlx
-        try:
-            out['T'] = fr_json(frac(M().solve_T_at_HP('l', None, case['H'], case['Tguess'], 101325.)))
-        except Exception as ex:
-            out['err'] = err_of(ex)
-        finally:
-            mm.flx = saved
-        out['Tg'] = Tg
-        out['calls'] = calls
-        return out
+        return run_wrap(case)
+    if k == 'hist':
+        return run_hist(case, check=False)[0]
     raise ValueError(k)
 
 # ------------------------------------------------------------------ model side
@@ -467,7 +645,7 @@ def coracles(case):
         return f'(script_oracles {CSTUB} {qlist(HF)} {q(TREF)} {t} {t})'
     return f'(lin_oracles {CSTUB} {qlist(HF)} {q(TREF)})'
 
-CSTUB = f'(mkP {qlist(CN)} {qlist(CNG)} {qlist(LAT)})'
+CSTUB = f'(mkP {qlist(CN)} {qlist(CNG)} {qlist(LAT)} {qlist(S0L)} {qlist(SG)})'
 
 def cinlet(o):
     if o[0] == 's': return f'(IStream {cnat(o[1])})'
@@ -496,8 +674,19 @@ def model_term(case, out):
         return f'(iter_T_at_SP (fun y => ({q(case["ea"])} + y) / {q(case["eb"])}) {q(case["T"])} {q(case["X"])} {Xm} {Cm} {cache})'
     if k == 'wrap':
         a, b, c = (q(case[x]) for x in 'abc')
-        return (f'(solve_T_at_HP (fun _ => Ok ({q(out["Tg"])}, (0%nat, None))) (fun _ _ => Ok {q(case["secant"])}) (1 # 1000000) '
-                f'{q(case["H"])} {q(case["Tguess"])} (fun T => {a} * T + {b}) (fun _ => {c}))')
+        ait = 'Err ERuntime' if case.get('aitken_raises') else f'Ok ({q(out["Tg"])}, (0%nat, None))'
+        sec = 'Err ERuntime' if case.get('secant_raises') else f'Ok {q(case["secant"])}'
+        var = case.get('var', 'H')
+        loaded = '[4%nat; 3%nat]' if var.startswith('x') else '[4%nat]'
+        nph = '2' if var.startswith('x') else '1'      # the x-wrappers sum over the two phases they are given
+        common = (f'(fun _ => {ait}) (fun _ _ => {sec}) (1 # 1000000) {q(case["H"])} {q(case["Tguess"])} '
+                  f'(fun T => {nph} * ({a} * T + {b})) (fun _ => {nph} * {c})')
+        if var[-1] == 'H':
+            return f'(solve_T_at_HP_ws {loaded} {common})'
+        return f'(solve_T_at_SP_ws {loaded} (fun y => ({q(case.get("ea", 1.))} + y) / {q(case.get("eb", 1.))}) {common})'
+    if k == 'hist':
+        return (f'(hrun {O} (get_prop {O}) (map (fun s => mkCell s None) {clist([cstream(x) for x in out["init"]])}, '
+                f'seq 0 {cnat(len(out["init"]))}) {clist([chop(o) for o in case["ops"]])})')
     raise ValueError(k)
 
 def cancels(snapshot, H):
@@ -505,6 +694,26 @@ def cancels(snapshot, H):
     C = sum(F(x) * F(c) for _, row in snapshot['pm'] for x, c in zip(row, CN))
     L = sum(F(x) * F(c) for p, row in snapshot['pm'] if p == PH['g'] for x, c in zip(row, LAT))
     return abs(F(H)) < F(1, 100000) * (C * abs(F(snapshot['T'])) + L)
+
+WHICH = {'H': 0, 'S': 1, 'h': 2, 'Hnet': 3}
+def chop(op):
+    k = op[0]
+    if k == 'proxy': return f'(HProxy {cnat(op[1])})'
+    if k == 'read': return f'(HRead {cnat(op[1])} {cnat(1 if op[2] == "S" else 0)} {cbool(op[2] != "h")})'
+    if k == 'T': return f'(HSetT {cnat(op[1])} {q(op[2])})'
+    if k == 'P': return f'(HSetP {cnat(op[1])} {q(op[2])})'
+    if k == 'phase': return f'(HPhase {cnat(op[1])} {cnat(PH[op[2]])})'
+    if k == 'set': return f'(HSet {cnat(op[1])} {cnat(WHICH[op[2]])} {q(op[3])})'
+    if k == 'cur': return f'(HSetCur {cnat(op[1])} {cnat(WHICH[op[2]])})'
+    if k == 'mix': return f'(HMix {cnat(op[1])} {clist([cinlet(o) for o in op[2]])} {q(op[3])})'
+    if k == 'sep': return f'(HSep {cnat(op[1])} {cnat(op[2])})'
+    raise ValueError(k)
+
+def cobs(o):
+    if o[0] == 'none': return 'ONone'
+    if o[0] == 'val': return f'(OVal {copt(o[1], lambda x: q(F(x)))})'
+    if o[0] == 'err': return f'(OErr {copt(o[1])})'
+    return f'(OStop {o[1]})'
 
 def coq_case(case, out):
     k = case['kind']
@@ -537,7 +746,13 @@ def coq_case(case, out):
         return f'(it_eqb {t} (Ok ({q(F(out["T"]))}, ({cnat(c[0])}, {copt(c[1], lambda x: q(F(x)))}))))'
     if k == 'wrap':
         exp = cres(out['err'], q(F(out['T'])) if not out['err'] else '')
-        return f'(res_eqb qapproxb {t} {exp})'
+        return f'(ws_eqb {t} {exp} {cnat(out["left"])})'
+    if k == 'hist':
+        O = coracles(case)
+        init = clist([cstream(x) for x in out['init']])
+        return (f'(hist_check {O} {init} {clist([chop(o) for o in case["ops"]])} {clist([cobs(o) for o in out["obs"]])} '
+                f'{clist([cstream(x) for x in out["final"]])} {clist(out["cells"], cnat)} {cbool(not out.get("stopped"))} '
+                f'&& {cbool(out["handles_agree"])})')
     raise ValueError(k)
 
 def coq_show(case, out):
@@ -573,7 +788,10 @@ def classify(case, out):
     if k == 'iter':
         ks.append('iter:' + case['var'])
     if k == 'wrap':
-        ks.append('wrap:' + '+'.join(out.get('calls', [])))
+        ks.append('wrap:' + case.get('var', 'H') + ':' + '+'.join(out.get('calls', [])) + (':raises' if out.get('err') else ''))
+    if k == 'hist':
+        ks.append('hist:handles:%d' % len(out.get('cells', [])))
+        for o in case['ops']: ks.append('hist:op:' + o[0])
     return ks
 
 # ------------------------------------------------------------------ direct oracle (the property on the implementation)
@@ -693,8 +911,56 @@ def oracle(case):
     if k == 'iter':
         return None
     if k == 'wrap':
+        out = run_wrap(case)
+        if out['left']:
+            return (f'workspace-leak: Mixture.{"x" if case.get("var", "H").startswith("x") else ""}solve_T_at_{case.get("var", "H")[-1]}P '
+                    f'{"raised " + out["exc"] if out["err"] else "returned"} and left {out["left"]} entries in _free_energy_args '
+                    f'(they are used by every later H / S / Cn evaluation of that phase)')
         return None
+    if k == 'hist':
+        return run_hist(case, check=True)[1]
+    if k == 'eos':
+        return oracle_eos(case)
     return None
+
+def env_eos():
+    """an equation-of-state package (Peng-Robinson), whose mixture keeps per-solve work-space; search step only"""
+    e = env()
+    if 'eos' not in e:
+        tmo = e['tmo']
+        chems = tmo.Chemicals(['Water', 'Ethanol', 'Methanol'], cache=True)
+        e['eos'] = tmo.Thermo(chems, mixture=tmo.PRMixture.from_chemicals(chems))
+    e['tmo'].settings.set_thermo(e['eos'])
+    e['ids'] = ['Water', 'Ethanol', 'Methanol']
+    return e
+
+def oracle_eos(case):
+    """a rejected (infeasible) enthalpy / entropy assignment on one stream must not change what other streams report,
+    nor the energy balance of a later mix"""
+    e = env_eos(); tmo = e['tmo']
+    try:
+        ref = [build_stream(d).H for d in case['streams']]
+        victim = build_stream(case['victim'])
+        try:
+            setattr(victim, case['which'], case['value'])
+            return None                       # accepted: nothing to check
+        except Exception as ex:
+            name = type(ex).__name__
+        left = len(getattr(victim.mixture, '_free_energy_args', {}))
+        for d, H0 in zip(case['streams'], ref):
+            H1 = build_stream(d).H
+            if not close(H1, H0, 1e-9):
+                return (f'workspace-leak: after a rejected assignment {case["which"]}={case["value"]} ({name}) an identical fresh stream '
+                        f'reports H = {H1!r} instead of {H0!r} ({left} entries left in mixture._free_energy_args)')
+        ins = [build_stream(d) for d in case['streams']]
+        if len({next(iter(d['rows'])) for d in case['streams']}) == 1:
+            r = tmo.Stream(None, phase=next(iter(case['streams'][0]['rows'])))
+            r.mix_from(ins, Q=case['Q'])
+            if not close(r.H, sum(ref) + case['Q'], 1e-6):
+                return f'mix: after a rejected assignment, receiver H = {r.H!r} but sum(inlet H) + Q = {sum(ref) + case["Q"]!r}'
+        return None
+    finally:
+        env()
 
 def _one_flip_ok(case):
     """single-phase l/g stream whose own phase is scripted to raise and whose flipped phase is solved by the real solver"""
@@ -722,6 +988,15 @@ def gen_real_stream(rng, multi_p=0.2):
 
 def search_cases(rng, tier):
     cases = []
+    for _ in range(6 if tier == 'quick' else 40):
+        def eos_stream():
+            if rng.random() < 0.6:
+                return {'multi': False, 'rows': {'g': [float(rng.choice([1, 4, 0])), float(rng.choice([6, 2, 1])), float(rng.choice([0, 3]))]},
+                        'T': float(rng.choice([400, 420, 450])), 'P': float(rng.choice([1e5, 2e5, 3e5]))}
+            return {'multi': False, 'rows': {'l': [float(rng.choice([7, 10])), float(rng.choice([0, 2])), float(rng.choice([2, 1]))]},
+                    'T': float(rng.choice([300, 310, 330])), 'P': float(rng.choice([1e5, 2e5]))}
+        cases.append({'kind': 'eos', 'streams': [eos_stream() for _ in range(rng.randint(1, 3))], 'victim': eos_stream(),
+                      'which': rng.choice(['H', 'H', 'S']), 'value': float(rng.choice([-1e12, 1e13, -1e9])), 'Q': float(rng.choice([0, 5e4]))})
     # a real property package (Water, Ethanol, Nitrogen from the packaged database) with the real solver
     for _ in range(40 if tier == 'quick' else 400):
         n = rng.randint(2, 4)
